@@ -879,7 +879,7 @@ func (w *World) condAtom(v ssa.Value, depth int) (op, l, r string, neg bool, kon
 				if isNilConst(a) {
 					a, bb = bb, a
 				}
-				if isNilConst(bb) && w.sentinelError(a) {
+				if isNilConst(bb) && (w.sentinelError(a) || freshError(a)) {
 					b := x.Op.String() == "!="
 					return "", "", "", false, &b
 				}
@@ -979,4 +979,18 @@ func earlyExits(header *ssa.BasicBlock, body map[*ssa.BasicBlock]bool) []*ssa.Ba
 		}
 	}
 	return out
+}
+
+// freshError: v is the result of a constructor that never returns nil (errors.New, fmt.Errorf,
+// errors.Errorf of the error packages in use) — e.g. what a spliced validation helper returned.
+func freshError(v ssa.Value) bool {
+	c, ok := v.(*ssa.Call)
+	if !ok {
+		return false
+	}
+	switch calleeName(&c.Call) {
+	case "errors.New", "fmt.Errorf", "github.com/friendsofgo/errors.New", "github.com/friendsofgo/errors.Errorf", "github.com/pkg/errors.New", "github.com/pkg/errors.Errorf":
+		return true
+	}
+	return false
 }
